@@ -11,6 +11,7 @@ EXPLANATION = (
     "(3) the record buffer allocated from the untrusted length field is dominated by an upper-bound test whose `too large` arm does not reach "
     "the allocation. It does not decide which transactions recovery then exposes."
     " C17.2 reports explicitly when Wal::append no longer positions the file cursor itself."
+    " C17.6 (shared with C02.4 / C07.3): every log scanner empties its buffer of pending records in the BeginTx arm, so the records of a transaction whose tail was cut are not replayed inside the next committed transaction."
 )
 
 NEXT = "nervusdb_storage::wal::WalReader::next_record"
@@ -126,6 +127,9 @@ def run(ctx):
     ctx.rule("C17.2", "Wal::append position derives from the end of valid data (see C01.5)")
     ctx.rule("C17.3", "the record buffer allocated from the length field is bounded by a dominating upper-bound test")
     ctx.rule("C17.5", "the reader's valid-length cursor advances only for records it hands to the caller (never before an end-of-log return)")
+    from .c02 import scanner_rule
+    ctx.rule("C17.6", "log scanners discard the records buffered from a torn transaction when the next BeginTx arrives (recovers exactly the committed transactions after a tail cut inside a transaction)")
+    scanner_rule(ctx, "C17.6")
     ctx.rule("C17.4", "a short read (UnexpectedEof) in the log reader ends the log: its error arm tests the error kind and can return Ok(None)")
     b = ctx.body(NEXT)
     memo = {}
